@@ -1632,3 +1632,60 @@ mut("c01-link-check-stops-early", ["C01"], [(BM, '''	for _, blockHeader := range
 		blockHash := blockHeader.BlockHash()
 
 		// If we haven't yet set lastHeader, set it now.''')], ["C01.G3"])
+CDC = "banman/codec.go"
+mut("c13-key-without-mask", ["C13"], [(CDC, '''	if _, err := w.Write([]byte(ipNet.Mask)); err != nil {
+		return err
+	}
+
+	return nil''', '''	return nil''')], ["C13.T3"])
+mut("c13-key-tag-swapped", ["C13"], [(CDC, "		ip = ipNet.IP.To4()\n		ipType = ipv4", "		ip = ipNet.IP.To4()\n		ipType = ipv6")], ["C13.T3"])
+mut("c13-key-write-error-ignored", ["C13"], [(CDC, '''	if _, err := w.Write(ip); err != nil {
+		return err
+	}''', '''	_, _ = w.Write(ip)''')], ["C13.T3"])
+mut("c13-expiry-little-endian-read", ["C13"], [(BST, "	banExpiration := time.Unix(int64(byteOrder.Uint64(v)), 0)", "	banExpiration := time.Unix(int64(binary.LittleEndian.Uint64(v)), 0)")], ["C13.T4"])
+mut("c13-expiry-without-now", ["C13"], [(BST, "	banExpiration := time.Now().Add(duration)", "	banExpiration := time.Time{}.Add(duration)")], ["C13.T4"])
+mut("c13-buckets-swapped-in-reader", ["C13"], [(BST, "	v := banIndex.Get(ipNetKey)\n	if v == nil {", "	v := reasonIndex.Get(ipNetKey)\n	if v == nil {")], ["C13.T4"])
+
+# ---- rules added after the fifth batch of independently seeded changes ----
+LRUF = "cache/lru/lru.go"
+mut("c10-watchlist-cache-keyed-by-script", ["C10"], [(BSR, "	outpoints map[wire.OutPoint][]byte", "	outpoints map[string][]byte"), (BSR, "		outpoints:   make(map[wire.OutPoint][]byte),", "		outpoints:   make(map[string][]byte),"), (BSR, "	delete(b.outpoints, *outpoint)\n", ""), (BSR, "	for _, request := range requests {\n		request.deliver(report, err)", "	for _, request := range requests {\n		delete(b.outpoints, string(request.Input.PkScript))\n		request.deliver(report, err)"), (BSR, "		if _, ok := b.outpoints[outpoint]; !ok {\n			entry := req.Input.PkScript\n			b.outpoints[outpoint] = entry", "		if _, ok := b.outpoints[string(req.Input.PkScript)]; !ok {\n			entry := req.Input.PkScript\n			b.outpoints[string(entry)] = entry")], ["C10.V2"])
+mut("c16-evict-callback-without-lock", ["C16"], [(LRUF, '''			c.onDelete.WhenSome(func(cb OnDeleteCallback[K, V]) {
+				cb(ce.key, ce.value)
+			})
+
+			// Remove the element from the cache.''', '''			c.onDelete.WhenSome(func(cb OnDeleteCallback[K, V]) {
+				c.mtx.Unlock()
+				defer c.mtx.Lock()
+				cb(ce.key, ce.value)
+			})
+
+			// Remove the element from the cache.''')], ["C16.P1"])
+mut("c07-compensation-after-failed-append", ["C07"], [(ST, "	if err := h.appendRaw(headerBuf.Bytes()); err != nil {\n		return err\n	}", "	if err := h.appendRaw(headerBuf.Bytes()); err != nil {\n		_ = h.truncateHeaders(uint32(len(hdrs)), h.indexType)\n		return err\n	}")], ["C07.O1"])
+mut("c09-rewind-by-height", ["C09"], [(RS, "		header, height, err = chain.GetBlockHeader(&curHeader.PrevBlock)\n		if err != nil {\n			return rewound, err\n		}\n", "		height = uint32(curStamp.Height - 1)\n		header, err = chain.GetBlockHeaderByHeight(height)\n		if err != nil {\n			return rewound, err\n		}\n")], ["C09.G4"])
+mut("c19-bulk-rollback-without-events", ["C19"], [(BM, '''	for uint32(bs.Height) > height {
+		header, headerHeight, err := b.cfg.BlockHeaders.FetchHeader(&bs.Hash)''', '''	if headerHeight > regHeight && regHeight >= height {
+		bs, err = b.cfg.BlockHeaders.RollbackBlockHeaders(headerHeight - regHeight)
+		if err != nil {
+			return err
+		}
+	}
+	for uint32(bs.Height) > height {
+		header, headerHeight, err := b.cfg.BlockHeaders.FetchHeader(&bs.Hash)''')], ["C19.O2"])
+mut("c01-next-checkpoint-not-strict", ["C01"], [(BM, "		if height >= checkpoints[i].Height {\n			break\n		}\n		nextCheckpoint = &checkpoints[i]", "		if height > checkpoints[i].Height {\n			break\n		}\n		nextCheckpoint = &checkpoints[i]")], ["C01.G7"])
+mut("quiet-next-checkpoint-negated-form", ["C01"], [(BM, "		if height >= checkpoints[i].Height {\n			break\n		}\n		nextCheckpoint = &checkpoints[i]", "		if !(checkpoints[i].Height > height) {\n			break\n		}\n		nextCheckpoint = &checkpoints[i]")], [])
+mut("c04-late-answers-reach-callback", ["C04"], [(Q, '''			select {
+			case <-peerQuits[sm.sp.Addr()]:
+			default:
+				checkResponse(sm.sp, sm.msg, queryQuit,
+					peerQuits[sm.sp.Addr()])
+			}''', '''			checkResponse(sm.sp, sm.msg, queryQuit,
+				peerQuits[sm.sp.Addr()])''')], ["C04.O4"])
+mut("c05-nil-target-returned", ["C05"], [(Q, '''	if filterQuery.targetFilter == nil {
+		return nil, ErrFilterFetchFailed
+	}
+''', '')], ["C05.V4"])
+mut("c15-interval-via-time-after", ["C15"], [(PB, "		case <-reBroadcastTicker.C:", "		case <-time.After(b.cfg.RebroadcastInterval):")], ["C15.V2"])
+mut("c18-stop-reads-registry-before-join", ["C18", "C11"], [(MG, '''	close(m.quit)
+	m.wg.Wait()
+''', '''	close(m.quit)
+''')], ["C18.R5", "C11.R1"])
